@@ -318,8 +318,9 @@ class Observer:
                            modelNonInc=bool(mx <= 1e-9 * (1.0 + abs(mx))),
                            matchesRef=bool((not judged) or np.max(np.abs(xc - xref)) <= tol * step),
                            judged=judged,
-                           cOk=bool((not free.any()) or tiny or (not judged) or np.allclose(np.asarray(c, float), cexp, rtol=1e-6,
-                                                                    atol=1e-9 * (1.0 + float(np.max(np.abs(cexp))) if cexp.size else 0.0))),
+                           cOk=bool((not free.any()) or tiny or (not judged) or np.all(
+                               np.abs(np.asarray(c, float) - cexp)
+                               <= 1e-6 * (np.abs(mats.W.T) @ (np.abs(xc - xi) + 1e-10 * (1.0 + np.abs(xi)))) + 1e-300)),
                            nfree=int(free.sum()), npairs=int(mats.W.shape[1] // 2 if mats.use_factor else 0),
                            _x=xi, _g=gi, _xcp=xc.copy(), _xref=xref, _B=B)
                 except Exception as ex:  # noqa: BLE001 - the reference could not be computed (singular model)
